@@ -86,7 +86,7 @@ def run(name, script, total, start=0, limit=None, warm=0, batch=2, cap=1000, see
                 out = train_dqn(q, env, buf, opt, batch_size=batch, total_timesteps=total, gamma=0.9, seed=seed, global_step=start, progress_bar=False)
                 res["returned_step"] = int(out.global_step)
             else:
-                qt = None if extra.get("own_targets") else nnx.clone(q)
+                qt = None if extra.get("own_targets") else _tclone(extra, q)
                 mods["q_target"] = qt
                 kw = dict(batch_size=batch, total_timesteps=total, total_episodes=limit, gamma=0.9, update_frequency=extra.get("uf", 1),
                           target_update_frequency=extra.get("tuf", 3), learning_starts=warm, q_target_net=qt, seed=seed, global_step=start, progress_bar=False)
@@ -110,7 +110,7 @@ def run(name, script, total, start=0, limit=None, warm=0, batch=2, cap=1000, see
             else:
                 from rl_blox.algorithm.td3 import create_td3_state
                 st = create_td3_state(env, policy_hidden_nodes=tiny(), q_hidden_nodes=tiny(), seed=seed)
-            pt, qt = (None, None) if extra.get("own_targets") else (nnx.clone(st.policy), nnx.clone(st.q))
+            pt, qt = (None, None) if extra.get("own_targets") else (_tclone(extra, st.policy), _tclone(extra, st.q))
             buf = LAP(cap) if name == "td3_lap" else ReplayBuffer(cap)
             mods.update({"policy": st.policy, "q": st.q, "policy_target": pt, "q_target": qt, "policy_optimizer": st.policy_optimizer, "q_optimizer": st.q_optimizer})
             tau = extra.get("tau", 0.25)
@@ -131,7 +131,7 @@ def run(name, script, total, start=0, limit=None, warm=0, batch=2, cap=1000, see
             from rl_blox.algorithm.sac import EntropyControl, create_sac_state, train_sac
             from rl_blox.blox.replay_buffer import ReplayBuffer
             st = create_sac_state(env, policy_hidden_nodes=tiny(), q_hidden_nodes=tiny(), seed=seed)
-            qt = None if extra.get("own_targets") else nnx.clone(st.q)
+            qt = None if extra.get("own_targets") else _tclone(extra, st.q)
             buf = ReplayBuffer(cap)
             ec = EntropyControl(env, 0.2, True, 1e-2)
             mods.update({"policy": st.policy, "q": st.q, "q_target": qt, "alpha": ec._alpha, "policy_optimizer": st.policy_optimizer, "q_optimizer": st.q_optimizer,
@@ -145,7 +145,7 @@ def run(name, script, total, start=0, limit=None, warm=0, batch=2, cap=1000, see
             from rl_blox.blox.replay_buffer import LAP
             st = create_td7_state(env, n_embedding_dimensions=4, state_embedding_hidden_nodes=(4,), state_action_embedding_hidden_nodes=(4,),
                                   policy_sa_encoding_nodes=4, policy_hidden_nodes=(4,), q_sa_encoding_nodes=4, q_hidden_nodes=(4,), seed=seed)
-            at, ct = (None, None) if extra.get("own_targets") else (nnx.clone(st.actor), nnx.clone(st.critic))
+            at, ct = (None, None) if extra.get("own_targets") else (_tclone(extra, st.actor), _tclone(extra, st.critic))
             buf = LAP(cap)
             mods.update({"embedding": st.embedding, "actor": st.actor, "critic": st.critic, "actor_target": at, "critic_target": ct,
                          "embedding_optimizer": st.embedding_optimizer, "actor_optimizer": st.actor_optimizer, "critic_optimizer": st.critic_optimizer})
@@ -178,7 +178,7 @@ def run(name, script, total, start=0, limit=None, warm=0, batch=2, cap=1000, see
             from rl_blox.blox.replay_buffer import SubtrajectoryReplayBufferPER
             st = create_mrq_state(env, policy_hidden_nodes=(4,), q_hidden_nodes=(4,), encoder_n_bins=7, encoder_zs_dim=4, encoder_za_dim=3,
                                   encoder_zsa_dim=4, encoder_hidden_nodes=(4,), seed=seed)
-            pet, qt = (None, None) if extra.get("own_targets") else (nnx.clone(st.policy_with_encoder), nnx.clone(st.q))
+            pet, qt = (None, None) if extra.get("own_targets") else (_tclone(extra, st.policy_with_encoder), _tclone(extra, st.q))
             buf = SubtrajectoryReplayBufferPER(cap, horizon=2)
             mods.update({"policy_with_encoder": st.policy_with_encoder, "q": st.q, "policy_with_encoder_target": pet, "q_target": qt,
                          "encoder_optimizer": st.encoder_optimizer, "policy_optimizer": st.policy_optimizer, "q_optimizer": st.q_optimizer})
@@ -237,6 +237,17 @@ def stored_rows(res):
 
 def step_events(res):
     return [e for e in res["log"] if e[0] == "step"]
+
+
+def _tclone(extra, module):
+    """target handed to the routine: a clone of the online module, or (extra['distinct_targets']) a network of the same structure with
+    other weights - as when training is continued with targets that lag behind the online networks"""
+    import jax
+    from flax import nnx
+    c = nnx.clone(module)
+    if extra.get("distinct_targets"):
+        nnx.update(c, jax.tree.map(lambda v: v * 0.5 + 0.125, nnx.state(c, nnx.Param)))
+    return c
 
 
 def changed_iterations(res, name):
